@@ -223,6 +223,18 @@ func c09Outcome(r *fw.Rec, sym string, rd gozxing.Reader, img *image.Gray, hints
 	return "read", res
 }
 
+// c09ReverseAccepted: an upside-down 1-D symbol read with the right text but WITHOUT orientation
+// metadata was accepted on the forward attempt, i.e. in the wrong reading direction - the mechanism
+// of the recorded UPC-E finding, here with the misgrouped runs spelling the same number.
+func c09ReverseAccepted(res *gozxing.Result) string {
+	if res != nil {
+		if _, has := res.GetResultMetadata()[gozxing.ResultMetadataType_ORIENTATION]; !has {
+			return ":row-accepted-in-reverse-direction"
+		}
+	}
+	return ""
+}
+
 func c09Tally(r *fw.Rec, sym string, p c09Pose, outcome string, twoD bool) {
 	r.Tally("poses")
 	r.Tally(sym + "_poses")
@@ -780,7 +792,7 @@ func c09OneDCase(r *fw.Rec, od c09OneD, nrandom int, sample bool) {
 			o180, has := res.GetResultMetadata()[gozxing.ResultMetadataType_ORIENTATION]
 			if v, isInt := o180.(int); !has || !isInt || v != 180 {
 				info["orientation"] = fmt.Sprint(o180)
-				r.Violation("orientation", od.name+":rot180-orientation-metadata", fmt.Sprintf("%s symbol %q turned upside down was read but ORIENTATION metadata is %v (present=%v), expected 180", od.name, want, o180, has), info)
+				r.Violation("orientation", od.name+":rot180-orientation-metadata"+c09ReverseAccepted(res), fmt.Sprintf("%s symbol %q turned upside down was read but ORIENTATION metadata is %v (present=%v), expected 180", od.name, want, o180, has), info)
 				return
 			}
 			r.Tally(od.name + "_rot180_read_with_orientation")
@@ -856,7 +868,7 @@ func c09OneDCase(r *fw.Rec, od c09OneD, nrandom int, sample bool) {
 		}
 		if p.Rot == 180 {
 			if v, isInt := res.GetResultMetadata()[gozxing.ResultMetadataType_ORIENTATION].(int); !isInt || v != 180 {
-				r.Violation("orientation", od.name+":rot180-orientation-metadata", fmt.Sprintf("%s symbol %q upside down in a low strip was read without ORIENTATION 180", od.name, want), info)
+				r.Violation("orientation", od.name+":rot180-orientation-metadata"+c09ReverseAccepted(res), fmt.Sprintf("%s symbol %q upside down in a low strip was read without ORIENTATION 180", od.name, want), info)
 				return
 			}
 		}
@@ -921,7 +933,7 @@ func c09OneDSweep(r *fw.Rec, od c09OneD, n int) {
 			return
 		}
 		if v, isInt := res.GetResultMetadata()[gozxing.ResultMetadataType_ORIENTATION].(int); !isInt || v != 180 {
-			r.Violation("orientation", od.name+":rot180-orientation-metadata", fmt.Sprintf("%s symbol %q turned upside down was read but ORIENTATION metadata is %v, expected 180", od.name, want, res.GetResultMetadata()[gozxing.ResultMetadataType_ORIENTATION]), info)
+			r.Violation("orientation", od.name+":rot180-orientation-metadata"+c09ReverseAccepted(res), fmt.Sprintf("%s symbol %q turned upside down was read but ORIENTATION metadata is %v, expected 180", od.name, want, res.GetResultMetadata()[gozxing.ResultMetadataType_ORIENTATION]), info)
 			return
 		}
 		r.Tally(od.name + "_rot180_read_with_orientation")
